@@ -14,6 +14,7 @@ import (
 func init() {
 	Register(&Prop{
 		ID: "C05", Bubble: true, Run: runC05, QuickRuns: 1500,
+		ExpectedProbes: []string{"estimate_changed_concurrently"},
 		Rule: "one run = DefaultLimiter over simple / precise / lookup / predicate strategy (strategy constructed with a limit that differs from the algorithm's estimate) with a scripted limit trajectory (0, negative, repeated, jumps) or AIMD / Vegas / Gradient2; window size 10, period 1 ns so that almost every completion closes a window; 1..4 tasks complete tokens concurrently under a seeded schedule; " +
 			"oracle after construction and at every stable point with no completion in flight: strategy limit == max(1, EstimatedLimit()), every partition share == max(1, ceil(that x fraction)), the limit gauges registered with a recording registry report the same values; every OnSample of the algorithm is followed by exactly one SetLimit with the post-sample estimate before the next OnSample; " +
 			"non-trivial = the estimate changed at least twice during the concurrent phase; distinct = distinct event hashes",
